@@ -43,7 +43,7 @@ def render_graph(g):
             objs.append("OSet %s 0 %s" % (fr, cvals(es)))
         elif k == "dict":
             objs.append("ODict %s 0 %s" % (fr, clist(["(%s, %s)" % (cval(es[i]), cval(es[i + 1])) for i in range(0, len(es), 2)])))
-        elif k == "tuple":
+        elif k in ("tuple", "tslice", "tcat"):
             objs.append("OTuple %s" % cvals(es))
         elif k in ("struct", "ssum"):
             objs.append("OStruct %s %s" % (fr, clist(["(%d, %s)" % (i, cval(v)) for i, v in enumerate(es)])))
